@@ -1,7 +1,10 @@
 """hostile input classes on the (repaired) tree: big values, zeros, k>n, int64 arrays, dict; validity for all, optimality for exact."""
 import warnings, random, sys
 warnings.simplefilter("ignore")
-import numpy as np, prtpy
+import numpy as np, prtpy, signal
+class TO(Exception): pass
+def _h(*a): raise TO()
+signal.signal(signal.SIGALRM,_h)
 from prtpy import obj, out
 from oracle import *
 from collections import Counter
@@ -10,7 +13,8 @@ rng=random.Random(int(sys.argv[1])); N=int(sys.argv[2]); res=Counter()
 algs={'greedy':prt.greedy,'rr':prt.roundrobin,'multifit':prt.multifit,'kk':prt.kk,'cg':prt.complete_greedy,'ckk':prt.ckk,'snp':prt.snp,'rnp':prt.rnp,'dp':prt.dp,'cbldm':prt.cbldm}
 exact={'cg','ckk','snp','rnp','dp'}
 for t in range(N):
-    n=rng.randint(1,8); k=rng.randint(1,n+3) if rng.random()<.3 else rng.randint(1,5)
+    n=rng.randint(1,8); k=rng.randint(1,min(n+3,7)) if rng.random()<.3 else rng.randint(1,5)
+    if k>5: n=min(n,5)
     cls=rng.choice(['big','bigclose','zeros','mixed','pow2'])
     if cls=='big': items=[rng.randint(1,2**40) for _ in range(n)]
     elif cls=='bigclose':
@@ -27,8 +31,13 @@ for t in range(N):
         if a=='rnp' and kk_>=6: continue
         if a=='dp' and (kk_>=4 and n>6 or n>8): continue
         try:
+            signal.alarm(20)
             s,l=prtpy.partition(algorithm=alg,numbins=kk_,items=arg,outputtype=out.PartitionAndSumsTuple)
+            signal.alarm(0)
+        except TO:
+            res[(a,cls,'TIMEOUT')]+=1; continue
         except Exception as e:
+            signal.alarm(0)
             res[(a,cls,'EXC')]+=1; print('EXC',a,cls,form,items,kk_,repr(e)[:80]); continue
         vals=[[d[x] if form=='dict' else int(x) for x in b] for b in l]
         flat=sorted(x for b in vals for x in b)
